@@ -460,9 +460,9 @@ ORACLES = {'C16/csv-roundtrip': oracle_csv, 'C16/tsv-roundtrip': oracle_tsv, 'C1
 
 def run(ctx):
     clauses = [
-        Clause('C16/csv-roundtrip', lambda: table_case(False), oracle_csv, quick=3000, thorough=120000, quick_shards=3),
-        Clause('C16/tsv-roundtrip', lambda: table_case(True), oracle_tsv, quick=3000, thorough=120000, quick_shards=3),
-        Clause('C16/vw-roundtrip', vw_case, oracle_vw, quick=3000, thorough=120000, quick_shards=3),
+        Clause('C16/csv-roundtrip', lambda: table_case(False), oracle_csv, quick=3000, thorough=90000, quick_shards=3),
+        Clause('C16/tsv-roundtrip', lambda: table_case(True), oracle_tsv, quick=3000, thorough=90000, quick_shards=3),
+        Clause('C16/vw-roundtrip', vw_case, oracle_vw, quick=3000, thorough=90000, quick_shards=3),
         Clause('C16/namespace-map', nsmap_case, oracle_nsmap, quick=1200, thorough=30000, quick_shards=2),
         Clause('C16/arity-stream-csv', lambda: arity_case('csv'), oracle_arity, quick=750, thorough=20000, quick_shards=3),
         Clause('C16/arity-stream-tsv', lambda: arity_case('tsv'), oracle_arity, quick=600, thorough=20000, quick_shards=2),
@@ -484,7 +484,7 @@ def run(ctx):
 
 FUZZ_KINDS = ['C16/csv-roundtrip', 'C16/tsv-roundtrip', 'C16/vw-roundtrip', 'C16/namespace-map']
 FUZZ_RUNS = 400000
-FUZZ_SECONDS = 150
+FUZZ_SECONDS = 120
 
 
 def _fuzz_strategy(kinds):
